@@ -1,5 +1,6 @@
 import ArgoVerif.Proofs.Ledger
 import ArgoVerif.Proofs.LedgerRuns
+import ArgoVerif.Proofs.LedgerRuns2
 /-
 Props.C18 — a failed allocation fails cleanly.
 
@@ -866,5 +867,252 @@ theorem ledger_preexisting_untouched_ABT_mutex_attr_create (o : Oracle) :
   (and4 (all_runs_exec_noparam ABT_mutex_attr_create 400 check_ABT_mutex_attr_create rfl runs_ABT_mutex_attr_create o)).2.2.2
 
 example : 0 < injectedRuns ABT_mutex_attr_create 400 0 := nonvacuous_ABT_mutex_attr_create
+
+
+/-! ### ladders that change visible state of pre-existing objects (Proofs/LedgerRuns2)
+Six statements per routine: the first three as above; `ledger_preexisting_untouched_on_error_R` (a *successful* replacement /
+re-association consumes the replaced automatic scheduler / the old pool's unit by design, so "no pre-existing resource is
+released" is claimed for every execution that reports an error); `ledger_no_double_release_R` (no resource is released twice,
+in particular not one that another resource's destructor owns); `ledger_state_unchanged_on_error_R` (every tracked field of a
+pre-existing object — `p_sched->used`, `p_xstream->p_main_sched`, `p_thread->unit` — has its entry value when an error is
+returned: it was not written before the last fallible step, or it was rolled back). -/
+open ArgoVerif.Proofs.LedgerRuns2
+
+/-- **C18 / no leak, error code** for `xstream_update_main_sched` (stream.c) on a stream that already has a main scheduler: the "another (joined) stream" branch re-associates the main-scheduler ULT with the new scheduler's first pool (fallible: user-defined pool) and the "caller's stream" branch re-associates the calling ULT. -/
+theorem ledger_fail_balanced_xstream_update_main_sched (o : Oracle) :
+    failBalanced (exec xstream_update_main_sched 400 o) = true :=
+  (and6 (all_runs_exec_noparam xstream_update_main_sched 400 (check6 xstream_update_main_sched allowed_xstream_update_main_sched) rfl runs_xstream_update_main_sched o)).1
+
+/-- **C18 / exact success** for `xstream_update_main_sched` (stream.c) on a stream that already has a main scheduler: the "another (joined) stream" branch re-associates the main-scheduler ULT with the new scheduler's first pool (fallible: user-defined pool) and the "caller's stream" branch re-associates the calling ULT. -/
+theorem ledger_success_exact_xstream_update_main_sched (o : Oracle) :
+    successExact allowed_xstream_update_main_sched (exec xstream_update_main_sched 400 o) = true :=
+  (and6 (all_runs_exec_noparam xstream_update_main_sched 400 (check6 xstream_update_main_sched allowed_xstream_update_main_sched) rfl runs_xstream_update_main_sched o)).2.1
+
+/-- **C18 / no dangling handle** for `xstream_update_main_sched` (stream.c) on a stream that already has a main scheduler: the "another (joined) stream" branch re-associates the main-scheduler ULT with the new scheduler's first pool (fallible: user-defined pool) and the "caller's stream" branch re-associates the calling ULT. -/
+theorem ledger_handle_null_or_untouched_xstream_update_main_sched (o : Oracle) :
+    handleOk xstream_update_main_sched (exec xstream_update_main_sched 400 o) = true :=
+  (and6 (all_runs_exec_noparam xstream_update_main_sched 400 (check6 xstream_update_main_sched allowed_xstream_update_main_sched) rfl runs_xstream_update_main_sched o)).2.2.1
+
+/-- **C18 / pre-existing objects untouched when an error is reported** for `xstream_update_main_sched` (stream.c) on a stream that already has a main scheduler: the "another (joined) stream" branch re-associates the main-scheduler ULT with the new scheduler's first pool (fallible: user-defined pool) and the "caller's stream" branch re-associates the calling ULT. -/
+theorem ledger_preexisting_untouched_on_error_xstream_update_main_sched (o : Oracle) :
+    preUntouchedOnError xstream_update_main_sched (exec xstream_update_main_sched 400 o) = true :=
+  (and6 (all_runs_exec_noparam xstream_update_main_sched 400 (check6 xstream_update_main_sched allowed_xstream_update_main_sched) rfl runs_xstream_update_main_sched o)).2.2.2.1
+
+/-- **C18 / nothing released twice** for `xstream_update_main_sched` (stream.c) on a stream that already has a main scheduler: the "another (joined) stream" branch re-associates the main-scheduler ULT with the new scheduler's first pool (fallible: user-defined pool) and the "caller's stream" branch re-associates the calling ULT. -/
+theorem ledger_no_double_release_xstream_update_main_sched (o : Oracle) :
+    noBadRelease (exec xstream_update_main_sched 400 o) = true :=
+  (and6 (all_runs_exec_noparam xstream_update_main_sched 400 (check6 xstream_update_main_sched allowed_xstream_update_main_sched) rfl runs_xstream_update_main_sched o)).2.2.2.2.1
+
+/-- **C18 / visible state unchanged (or rolled back) when an error is reported** for `xstream_update_main_sched` (stream.c) on a stream that already has a main scheduler: the "another (joined) stream" branch re-associates the main-scheduler ULT with the new scheduler's first pool (fallible: user-defined pool) and the "caller's stream" branch re-associates the calling ULT. -/
+theorem ledger_state_unchanged_on_error_xstream_update_main_sched (o : Oracle) :
+    stateRolledBack xstream_update_main_sched (exec xstream_update_main_sched 400 o) = true :=
+  (and6 (all_runs_exec_noparam xstream_update_main_sched 400 (check6 xstream_update_main_sched allowed_xstream_update_main_sched) rfl runs_xstream_update_main_sched o)).2.2.2.2.2
+
+example : 0 < injectedRuns xstream_update_main_sched 400 0 := nonvacuous_xstream_update_main_sched
+
+/-- **C18 / no leak, error code** for `xstream_update_main_sched` (stream.c), first installation of a main scheduler (no fallible step). -/
+theorem ledger_fail_balanced_xstream_update_main_sched_first (o : Oracle) :
+    failBalanced (exec xstream_update_main_sched_first 400 o) = true :=
+  (and6 (all_runs_exec_noparam xstream_update_main_sched_first 400 (check6 xstream_update_main_sched_first allowed_xstream_update_main_sched_first) rfl runs_xstream_update_main_sched_first o)).1
+
+/-- **C18 / exact success** for `xstream_update_main_sched` (stream.c), first installation of a main scheduler (no fallible step). -/
+theorem ledger_success_exact_xstream_update_main_sched_first (o : Oracle) :
+    successExact allowed_xstream_update_main_sched_first (exec xstream_update_main_sched_first 400 o) = true :=
+  (and6 (all_runs_exec_noparam xstream_update_main_sched_first 400 (check6 xstream_update_main_sched_first allowed_xstream_update_main_sched_first) rfl runs_xstream_update_main_sched_first o)).2.1
+
+/-- **C18 / no dangling handle** for `xstream_update_main_sched` (stream.c), first installation of a main scheduler (no fallible step). -/
+theorem ledger_handle_null_or_untouched_xstream_update_main_sched_first (o : Oracle) :
+    handleOk xstream_update_main_sched_first (exec xstream_update_main_sched_first 400 o) = true :=
+  (and6 (all_runs_exec_noparam xstream_update_main_sched_first 400 (check6 xstream_update_main_sched_first allowed_xstream_update_main_sched_first) rfl runs_xstream_update_main_sched_first o)).2.2.1
+
+/-- **C18 / pre-existing objects untouched when an error is reported** for `xstream_update_main_sched` (stream.c), first installation of a main scheduler (no fallible step). -/
+theorem ledger_preexisting_untouched_on_error_xstream_update_main_sched_first (o : Oracle) :
+    preUntouchedOnError xstream_update_main_sched_first (exec xstream_update_main_sched_first 400 o) = true :=
+  (and6 (all_runs_exec_noparam xstream_update_main_sched_first 400 (check6 xstream_update_main_sched_first allowed_xstream_update_main_sched_first) rfl runs_xstream_update_main_sched_first o)).2.2.2.1
+
+/-- **C18 / nothing released twice** for `xstream_update_main_sched` (stream.c), first installation of a main scheduler (no fallible step). -/
+theorem ledger_no_double_release_xstream_update_main_sched_first (o : Oracle) :
+    noBadRelease (exec xstream_update_main_sched_first 400 o) = true :=
+  (and6 (all_runs_exec_noparam xstream_update_main_sched_first 400 (check6 xstream_update_main_sched_first allowed_xstream_update_main_sched_first) rfl runs_xstream_update_main_sched_first o)).2.2.2.2.1
+
+/-- **C18 / visible state unchanged (or rolled back) when an error is reported** for `xstream_update_main_sched` (stream.c), first installation of a main scheduler (no fallible step). -/
+theorem ledger_state_unchanged_on_error_xstream_update_main_sched_first (o : Oracle) :
+    stateRolledBack xstream_update_main_sched_first (exec xstream_update_main_sched_first 400 o) = true :=
+  (and6 (all_runs_exec_noparam xstream_update_main_sched_first 400 (check6 xstream_update_main_sched_first allowed_xstream_update_main_sched_first) rfl runs_xstream_update_main_sched_first o)).2.2.2.2.2
+
+/-- **C18 / no leak, error code** for `ABT_xstream_set_main_sched(xstream, ABT_SCHED_NULL)`: the default scheduler created for the call is freed again when the replacement fails. -/
+theorem ledger_fail_balanced_ABT_xstream_set_main_sched (o : Oracle) :
+    failBalanced (exec ABT_xstream_set_main_sched 400 o) = true :=
+  (and6 (all_runs_exec_noparam ABT_xstream_set_main_sched 400 (check6 ABT_xstream_set_main_sched allowed_ABT_xstream_set_main_sched) rfl runs_ABT_xstream_set_main_sched o)).1
+
+/-- **C18 / exact success** for `ABT_xstream_set_main_sched(xstream, ABT_SCHED_NULL)`: the default scheduler created for the call is freed again when the replacement fails. -/
+theorem ledger_success_exact_ABT_xstream_set_main_sched (o : Oracle) :
+    successExact allowed_ABT_xstream_set_main_sched (exec ABT_xstream_set_main_sched 400 o) = true :=
+  (and6 (all_runs_exec_noparam ABT_xstream_set_main_sched 400 (check6 ABT_xstream_set_main_sched allowed_ABT_xstream_set_main_sched) rfl runs_ABT_xstream_set_main_sched o)).2.1
+
+/-- **C18 / no dangling handle** for `ABT_xstream_set_main_sched(xstream, ABT_SCHED_NULL)`: the default scheduler created for the call is freed again when the replacement fails. -/
+theorem ledger_handle_null_or_untouched_ABT_xstream_set_main_sched (o : Oracle) :
+    handleOk ABT_xstream_set_main_sched (exec ABT_xstream_set_main_sched 400 o) = true :=
+  (and6 (all_runs_exec_noparam ABT_xstream_set_main_sched 400 (check6 ABT_xstream_set_main_sched allowed_ABT_xstream_set_main_sched) rfl runs_ABT_xstream_set_main_sched o)).2.2.1
+
+/-- **C18 / pre-existing objects untouched when an error is reported** for `ABT_xstream_set_main_sched(xstream, ABT_SCHED_NULL)`: the default scheduler created for the call is freed again when the replacement fails. -/
+theorem ledger_preexisting_untouched_on_error_ABT_xstream_set_main_sched (o : Oracle) :
+    preUntouchedOnError ABT_xstream_set_main_sched (exec ABT_xstream_set_main_sched 400 o) = true :=
+  (and6 (all_runs_exec_noparam ABT_xstream_set_main_sched 400 (check6 ABT_xstream_set_main_sched allowed_ABT_xstream_set_main_sched) rfl runs_ABT_xstream_set_main_sched o)).2.2.2.1
+
+/-- **C18 / nothing released twice** for `ABT_xstream_set_main_sched(xstream, ABT_SCHED_NULL)`: the default scheduler created for the call is freed again when the replacement fails. -/
+theorem ledger_no_double_release_ABT_xstream_set_main_sched (o : Oracle) :
+    noBadRelease (exec ABT_xstream_set_main_sched 400 o) = true :=
+  (and6 (all_runs_exec_noparam ABT_xstream_set_main_sched 400 (check6 ABT_xstream_set_main_sched allowed_ABT_xstream_set_main_sched) rfl runs_ABT_xstream_set_main_sched o)).2.2.2.2.1
+
+/-- **C18 / visible state unchanged (or rolled back) when an error is reported** for `ABT_xstream_set_main_sched(xstream, ABT_SCHED_NULL)`: the default scheduler created for the call is freed again when the replacement fails. -/
+theorem ledger_state_unchanged_on_error_ABT_xstream_set_main_sched (o : Oracle) :
+    stateRolledBack ABT_xstream_set_main_sched (exec ABT_xstream_set_main_sched 400 o) = true :=
+  (and6 (all_runs_exec_noparam ABT_xstream_set_main_sched 400 (check6 ABT_xstream_set_main_sched allowed_ABT_xstream_set_main_sched) rfl runs_ABT_xstream_set_main_sched o)).2.2.2.2.2
+
+example : 0 < injectedRuns ABT_xstream_set_main_sched 400 0 := nonvacuous_ABT_xstream_set_main_sched
+
+/-- **C18 / no leak, error code** for `ABT_xstream_set_main_sched(xstream, sched)` with a caller-owned scheduler: it is neither freed nor left marked as used when the replacement fails. -/
+theorem ledger_fail_balanced_ABT_xstream_set_main_sched_given (o : Oracle) :
+    failBalanced (exec ABT_xstream_set_main_sched_given 400 o) = true :=
+  (and6 (all_runs_exec_noparam ABT_xstream_set_main_sched_given 400 (check6 ABT_xstream_set_main_sched_given allowed_ABT_xstream_set_main_sched_given) rfl runs_ABT_xstream_set_main_sched_given o)).1
+
+/-- **C18 / exact success** for `ABT_xstream_set_main_sched(xstream, sched)` with a caller-owned scheduler: it is neither freed nor left marked as used when the replacement fails. -/
+theorem ledger_success_exact_ABT_xstream_set_main_sched_given (o : Oracle) :
+    successExact allowed_ABT_xstream_set_main_sched_given (exec ABT_xstream_set_main_sched_given 400 o) = true :=
+  (and6 (all_runs_exec_noparam ABT_xstream_set_main_sched_given 400 (check6 ABT_xstream_set_main_sched_given allowed_ABT_xstream_set_main_sched_given) rfl runs_ABT_xstream_set_main_sched_given o)).2.1
+
+/-- **C18 / no dangling handle** for `ABT_xstream_set_main_sched(xstream, sched)` with a caller-owned scheduler: it is neither freed nor left marked as used when the replacement fails. -/
+theorem ledger_handle_null_or_untouched_ABT_xstream_set_main_sched_given (o : Oracle) :
+    handleOk ABT_xstream_set_main_sched_given (exec ABT_xstream_set_main_sched_given 400 o) = true :=
+  (and6 (all_runs_exec_noparam ABT_xstream_set_main_sched_given 400 (check6 ABT_xstream_set_main_sched_given allowed_ABT_xstream_set_main_sched_given) rfl runs_ABT_xstream_set_main_sched_given o)).2.2.1
+
+/-- **C18 / pre-existing objects untouched when an error is reported** for `ABT_xstream_set_main_sched(xstream, sched)` with a caller-owned scheduler: it is neither freed nor left marked as used when the replacement fails. -/
+theorem ledger_preexisting_untouched_on_error_ABT_xstream_set_main_sched_given (o : Oracle) :
+    preUntouchedOnError ABT_xstream_set_main_sched_given (exec ABT_xstream_set_main_sched_given 400 o) = true :=
+  (and6 (all_runs_exec_noparam ABT_xstream_set_main_sched_given 400 (check6 ABT_xstream_set_main_sched_given allowed_ABT_xstream_set_main_sched_given) rfl runs_ABT_xstream_set_main_sched_given o)).2.2.2.1
+
+/-- **C18 / nothing released twice** for `ABT_xstream_set_main_sched(xstream, sched)` with a caller-owned scheduler: it is neither freed nor left marked as used when the replacement fails. -/
+theorem ledger_no_double_release_ABT_xstream_set_main_sched_given (o : Oracle) :
+    noBadRelease (exec ABT_xstream_set_main_sched_given 400 o) = true :=
+  (and6 (all_runs_exec_noparam ABT_xstream_set_main_sched_given 400 (check6 ABT_xstream_set_main_sched_given allowed_ABT_xstream_set_main_sched_given) rfl runs_ABT_xstream_set_main_sched_given o)).2.2.2.2.1
+
+/-- **C18 / visible state unchanged (or rolled back) when an error is reported** for `ABT_xstream_set_main_sched(xstream, sched)` with a caller-owned scheduler: it is neither freed nor left marked as used when the replacement fails. -/
+theorem ledger_state_unchanged_on_error_ABT_xstream_set_main_sched_given (o : Oracle) :
+    stateRolledBack ABT_xstream_set_main_sched_given (exec ABT_xstream_set_main_sched_given 400 o) = true :=
+  (and6 (all_runs_exec_noparam ABT_xstream_set_main_sched_given 400 (check6 ABT_xstream_set_main_sched_given allowed_ABT_xstream_set_main_sched_given) rfl runs_ABT_xstream_set_main_sched_given o)).2.2.2.2.2
+
+example : 0 < injectedRuns ABT_xstream_set_main_sched_given 400 0 := nonvacuous_ABT_xstream_set_main_sched_given
+
+/-- **C18 / no leak, error code** for `ABT_xstream_set_main_sched_basic`: scheduler built from the pool list and freed (user-given pools released first) when the replacement fails (`num_pools ≤ 2`; missing for the full statement: induction over the loop). -/
+theorem ledger_fail_balanced_ABT_xstream_set_main_sched_basic_partial (o : Oracle) (hb : o.param ≤ 2) :
+    failBalanced (exec ABT_xstream_set_main_sched_basic 600 o) = true :=
+  (and6 (all_runs_exec ABT_xstream_set_main_sched_basic 600 2 (check6 ABT_xstream_set_main_sched_basic allowed_ABT_xstream_set_main_sched_basic) runs_ABT_xstream_set_main_sched_basic o hb)).1
+
+/-- **C18 / exact success** for `ABT_xstream_set_main_sched_basic`: scheduler built from the pool list and freed (user-given pools released first) when the replacement fails (`num_pools ≤ 2`; missing for the full statement: induction over the loop). -/
+theorem ledger_success_exact_ABT_xstream_set_main_sched_basic_partial (o : Oracle) (hb : o.param ≤ 2) :
+    successExact allowed_ABT_xstream_set_main_sched_basic (exec ABT_xstream_set_main_sched_basic 600 o) = true :=
+  (and6 (all_runs_exec ABT_xstream_set_main_sched_basic 600 2 (check6 ABT_xstream_set_main_sched_basic allowed_ABT_xstream_set_main_sched_basic) runs_ABT_xstream_set_main_sched_basic o hb)).2.1
+
+/-- **C18 / no dangling handle** for `ABT_xstream_set_main_sched_basic`: scheduler built from the pool list and freed (user-given pools released first) when the replacement fails (`num_pools ≤ 2`; missing for the full statement: induction over the loop). -/
+theorem ledger_handle_null_or_untouched_ABT_xstream_set_main_sched_basic_partial (o : Oracle) (hb : o.param ≤ 2) :
+    handleOk ABT_xstream_set_main_sched_basic (exec ABT_xstream_set_main_sched_basic 600 o) = true :=
+  (and6 (all_runs_exec ABT_xstream_set_main_sched_basic 600 2 (check6 ABT_xstream_set_main_sched_basic allowed_ABT_xstream_set_main_sched_basic) runs_ABT_xstream_set_main_sched_basic o hb)).2.2.1
+
+/-- **C18 / pre-existing objects untouched when an error is reported** for `ABT_xstream_set_main_sched_basic`: scheduler built from the pool list and freed (user-given pools released first) when the replacement fails (`num_pools ≤ 2`; missing for the full statement: induction over the loop). -/
+theorem ledger_preexisting_untouched_on_error_ABT_xstream_set_main_sched_basic_partial (o : Oracle) (hb : o.param ≤ 2) :
+    preUntouchedOnError ABT_xstream_set_main_sched_basic (exec ABT_xstream_set_main_sched_basic 600 o) = true :=
+  (and6 (all_runs_exec ABT_xstream_set_main_sched_basic 600 2 (check6 ABT_xstream_set_main_sched_basic allowed_ABT_xstream_set_main_sched_basic) runs_ABT_xstream_set_main_sched_basic o hb)).2.2.2.1
+
+/-- **C18 / nothing released twice** for `ABT_xstream_set_main_sched_basic`: scheduler built from the pool list and freed (user-given pools released first) when the replacement fails (`num_pools ≤ 2`; missing for the full statement: induction over the loop). -/
+theorem ledger_no_double_release_ABT_xstream_set_main_sched_basic_partial (o : Oracle) (hb : o.param ≤ 2) :
+    noBadRelease (exec ABT_xstream_set_main_sched_basic 600 o) = true :=
+  (and6 (all_runs_exec ABT_xstream_set_main_sched_basic 600 2 (check6 ABT_xstream_set_main_sched_basic allowed_ABT_xstream_set_main_sched_basic) runs_ABT_xstream_set_main_sched_basic o hb)).2.2.2.2.1
+
+/-- **C18 / visible state unchanged (or rolled back) when an error is reported** for `ABT_xstream_set_main_sched_basic`: scheduler built from the pool list and freed (user-given pools released first) when the replacement fails (`num_pools ≤ 2`; missing for the full statement: induction over the loop). -/
+theorem ledger_state_unchanged_on_error_ABT_xstream_set_main_sched_basic_partial (o : Oracle) (hb : o.param ≤ 2) :
+    stateRolledBack ABT_xstream_set_main_sched_basic (exec ABT_xstream_set_main_sched_basic 600 o) = true :=
+  (and6 (all_runs_exec ABT_xstream_set_main_sched_basic 600 2 (check6 ABT_xstream_set_main_sched_basic allowed_ABT_xstream_set_main_sched_basic) runs_ABT_xstream_set_main_sched_basic o hb)).2.2.2.2.2
+
+example : 0 < injectedRuns ABT_xstream_set_main_sched_basic 600 2 := nonvacuous_ABT_xstream_set_main_sched_basic
+
+/-- **C18 / no leak, error code** for `ABTI_thread_set_associated_pool` (abti_unit.h; revive, push, migration, `ABT_thread_set_associated_pool`, `ABT_self_schedule`, main-scheduler ULT): the new pool's unit and its unit-map entry are created before the old unit is given up. -/
+theorem ledger_fail_balanced_ABTI_thread_set_associated_pool (o : Oracle) :
+    failBalanced (exec ABTI_thread_set_associated_pool 400 o) = true :=
+  (and6 (all_runs_exec_noparam ABTI_thread_set_associated_pool 400 (check6 ABTI_thread_set_associated_pool allowed_ABTI_thread_set_associated_pool) rfl runs_ABTI_thread_set_associated_pool o)).1
+
+/-- **C18 / exact success** for `ABTI_thread_set_associated_pool` (abti_unit.h; revive, push, migration, `ABT_thread_set_associated_pool`, `ABT_self_schedule`, main-scheduler ULT): the new pool's unit and its unit-map entry are created before the old unit is given up. -/
+theorem ledger_success_exact_ABTI_thread_set_associated_pool (o : Oracle) :
+    successExact allowed_ABTI_thread_set_associated_pool (exec ABTI_thread_set_associated_pool 400 o) = true :=
+  (and6 (all_runs_exec_noparam ABTI_thread_set_associated_pool 400 (check6 ABTI_thread_set_associated_pool allowed_ABTI_thread_set_associated_pool) rfl runs_ABTI_thread_set_associated_pool o)).2.1
+
+/-- **C18 / no dangling handle** for `ABTI_thread_set_associated_pool` (abti_unit.h; revive, push, migration, `ABT_thread_set_associated_pool`, `ABT_self_schedule`, main-scheduler ULT): the new pool's unit and its unit-map entry are created before the old unit is given up. -/
+theorem ledger_handle_null_or_untouched_ABTI_thread_set_associated_pool (o : Oracle) :
+    handleOk ABTI_thread_set_associated_pool (exec ABTI_thread_set_associated_pool 400 o) = true :=
+  (and6 (all_runs_exec_noparam ABTI_thread_set_associated_pool 400 (check6 ABTI_thread_set_associated_pool allowed_ABTI_thread_set_associated_pool) rfl runs_ABTI_thread_set_associated_pool o)).2.2.1
+
+/-- **C18 / pre-existing objects untouched when an error is reported** for `ABTI_thread_set_associated_pool` (abti_unit.h; revive, push, migration, `ABT_thread_set_associated_pool`, `ABT_self_schedule`, main-scheduler ULT): the new pool's unit and its unit-map entry are created before the old unit is given up. -/
+theorem ledger_preexisting_untouched_on_error_ABTI_thread_set_associated_pool (o : Oracle) :
+    preUntouchedOnError ABTI_thread_set_associated_pool (exec ABTI_thread_set_associated_pool 400 o) = true :=
+  (and6 (all_runs_exec_noparam ABTI_thread_set_associated_pool 400 (check6 ABTI_thread_set_associated_pool allowed_ABTI_thread_set_associated_pool) rfl runs_ABTI_thread_set_associated_pool o)).2.2.2.1
+
+/-- **C18 / nothing released twice** for `ABTI_thread_set_associated_pool` (abti_unit.h; revive, push, migration, `ABT_thread_set_associated_pool`, `ABT_self_schedule`, main-scheduler ULT): the new pool's unit and its unit-map entry are created before the old unit is given up. -/
+theorem ledger_no_double_release_ABTI_thread_set_associated_pool (o : Oracle) :
+    noBadRelease (exec ABTI_thread_set_associated_pool 400 o) = true :=
+  (and6 (all_runs_exec_noparam ABTI_thread_set_associated_pool 400 (check6 ABTI_thread_set_associated_pool allowed_ABTI_thread_set_associated_pool) rfl runs_ABTI_thread_set_associated_pool o)).2.2.2.2.1
+
+/-- **C18 / visible state unchanged (or rolled back) when an error is reported** for `ABTI_thread_set_associated_pool` (abti_unit.h; revive, push, migration, `ABT_thread_set_associated_pool`, `ABT_self_schedule`, main-scheduler ULT): the new pool's unit and its unit-map entry are created before the old unit is given up. -/
+theorem ledger_state_unchanged_on_error_ABTI_thread_set_associated_pool (o : Oracle) :
+    stateRolledBack ABTI_thread_set_associated_pool (exec ABTI_thread_set_associated_pool 400 o) = true :=
+  (and6 (all_runs_exec_noparam ABTI_thread_set_associated_pool 400 (check6 ABTI_thread_set_associated_pool allowed_ABTI_thread_set_associated_pool) rfl runs_ABTI_thread_set_associated_pool o)).2.2.2.2.2
+
+example : 0 < injectedRuns ABTI_thread_set_associated_pool 400 0 := nonvacuous_ABTI_thread_set_associated_pool
+
+/-! ### the same two named statements for ladders of Proofs/LedgerRuns, as corollaries of their four checks -/
+
+/-- **C18 / nothing released twice** for `ythread_create` without scheduler: the migration data handed to the key table (`ABTI_ktable_set_unsafe` under `g_thread_mig_data_key`, whose destructor frees it) is not freed again by a later rung of the error ladder. -/
+theorem ledger_no_double_release_ythread_create (o : Oracle) :
+    noBadRelease (exec ythread_create 400 o) = true :=
+  noBad_of_checks (ledger_fail_balanced_ythread_create o) (ledger_success_exact_ythread_create o)
+
+/-- **C18 / nothing released twice** for `ythread_create` with a stackable scheduler: neither the migration data nor anything else owned by the key table is released twice. -/
+theorem ledger_no_double_release_ythread_create_with_sched (o : Oracle) :
+    noBadRelease (exec ythread_create_with_sched 400 o) = true :=
+  noBad_of_checks (ledger_fail_balanced_ythread_create_with_sched o) (ledger_success_exact_ythread_create_with_sched o)
+
+/-- **C18 / nothing released twice** for `ABTI_thread_get_mig_data`: the migration data is freed by the routine only while the key table does not own it. -/
+theorem ledger_no_double_release_ABTI_thread_get_mig_data (o : Oracle) :
+    noBadRelease (exec ABTI_thread_get_mig_data 400 o) = true :=
+  noBad_of_checks_upTo (ledger_fail_balanced_ABTI_thread_get_mig_data o) (ledger_success_exact_ABTI_thread_get_mig_data o)
+
+/-- **C18 / nothing released twice** for `task_create`. -/
+theorem ledger_no_double_release_task_create (o : Oracle) :
+    noBadRelease (exec task_create 400 o) = true :=
+  noBad_of_checks (ledger_fail_balanced_task_create o) (ledger_success_exact_task_create o)
+
+/-- **C18 / nothing released twice** for `ABT_pool_add_sched`. -/
+theorem ledger_no_double_release_ABT_pool_add_sched (o : Oracle) :
+    noBadRelease (exec ABT_pool_add_sched 400 o) = true :=
+  noBad_of_checks (ledger_fail_balanced_ABT_pool_add_sched o) (ledger_success_exact_ABT_pool_add_sched o)
+
+/-- **C18 / nothing released twice** for `xstream_create`. -/
+theorem ledger_no_double_release_xstream_create (o : Oracle) :
+    noBadRelease (exec xstream_create 400 o) = true :=
+  noBad_of_checks (ledger_fail_balanced_xstream_create o) (ledger_success_exact_xstream_create o)
+
+/-- **C18 / visible state unchanged (or rolled back) when an error is reported** for `ABT_pool_add_sched`: `sched->used` is set to IN_POOL before the scheduler ULT is created and reset to NOT_USED when that fails. -/
+theorem ledger_state_unchanged_on_error_ABT_pool_add_sched (o : Oracle) :
+    stateRolledBack ABT_pool_add_sched (exec ABT_pool_add_sched 400 o) = true :=
+  rolledBack_of_preUntouched (ledger_preexisting_untouched_ABT_pool_add_sched o)
+
+/-- **C18 / visible state unchanged (or rolled back) when an error is reported** for `xstream_create`: `p_sched->used` is MAIN only after the last fallible rung, or reset on the FAILED ladder. -/
+theorem ledger_state_unchanged_on_error_xstream_create (o : Oracle) :
+    stateRolledBack xstream_create (exec xstream_create 400 o) = true :=
+  rolledBack_of_preUntouched (ledger_preexisting_untouched_xstream_create o)
+
+/-- **C18 / visible state unchanged (or rolled back) when an error is reported** for `ABT_xstream_create(sched, …)`: the caller's scheduler is not left marked as used. -/
+theorem ledger_state_unchanged_on_error_ABT_xstream_create_given (o : Oracle) :
+    stateRolledBack ABT_xstream_create_given (exec ABT_xstream_create_given 400 o) = true :=
+  rolledBack_of_preUntouched (ledger_preexisting_untouched_ABT_xstream_create_given o)
 
 end ArgoVerif.Props.C18
